@@ -918,7 +918,7 @@ func c21Groups() (groups []c21Group, rule string) {
 	}
 	// ---- part B: prevote family = unanimous on p, or voters alternating between p1 and p2
 	type bb struct{ nodes, maxN int }
-	boundsB := verifmc.Pick([]bb{{2, 4}, {3, 4}, {4, 4}}, []bb{{2, 5}, {3, 5}, {4, 5}, {5, 4}})
+	boundsB := verifmc.Pick([]bb{{2, 4}, {3, 4}, {4, 4}}, []bb{{2, 5}, {3, 5}, {4, 5}, {5, 3}})
 	for _, b := range boundsB {
 		verifmc.ParentVectors(b.nodes, func(parent []int) {
 			tree := treeOf(parent)
